@@ -108,7 +108,7 @@ class C20(Prop):
                    "a master apply that calls back into a creating object OTHER than the master (e.g. makes a wizard's object seteuid(0) during creator_file) is not modelled: "
                    "the object would still be created (give_uid_to_object does not re-test); only the master's callback into itself is run and proved",
                    "a master without get_root_uid() is not reloaded in the harness (its uids would come from an unlogged creator_file answer of the old master); "
-                   "reload_object(master) and destruct of the simul_efun object are refused by harness / driver and only that refusal is compared",
+                   "destruct of the simul_efun object is refused by the driver and only that refusal is compared",
                    "bind() is exercised with efun pointers (find_object(path, 1) / clone_object) only; simul_efun pointers and the "
                    "FP_NOT_BINDABLE refusals are in tie_bind_tree but not run; f_bind copies the reference count of the old pointer (leak, not a uid matter)",
                    "uid records (userid_t, AVL tree, add_uid / uidcmp) are modelled as names: valid because no record is ever renamed after the first master load (tie_uid_records_never_renamed)",
@@ -364,6 +364,11 @@ class C20(Prop):
                              "do m load,/c20/odd/a", "do u1a seteuid,s:Root", "do u1a load,/c20/u1/b", "do u1a load,/c20/root/a",
                              "do u2a seteuid,s:backbone", "do u2a load,/c20/bb/a", "do u2a load,/c20/u2/b", "do odda seteuid,s:u1",
                              "pol cf u1 s:u1", "do odda load,/c20/u1/c", "do odda export,u1b", "do m seteuid,s:root", "do m load,/c20/root/b"])
+        # reload_object(master()) is open to everybody: the master's euid is reset to 0 (it stays exempt from the euid tests)
+        mk("reload-master", ["do m load,/c20/u1/a", "do u1a reload,m", "do m load,/c20/bb/a", "pol vs m * i:1", "do m seteuid,s:Root",
+                             "do m reload,m", "do m clone,c1,/c20/bb/b", "script /c20/master seteuid,s:zed;load,/c20/u1/b", "do u1a reload,m",
+                             "script /c20/u2/a reload,m", "do m load,/c20/u2/a", "script /c20/master -", "do m load,/c20/u2/b",
+                             "do u1a later,reload,m", "do m dest,m", "do u1a reload,m"])
         # ---- round 6: inherit - /c20/u1/i.c inherits /c20/u2/a: load_object loads the inherited file first (same current_object: euid test,
         # valid_object, creator_file, create() of its own) and then starts again (test repeated)
         mk("inherit", ["do m load,/c20/u1/a", "do u1a load,/c20/u1/i", "do u1a seteuid,s:u1", "do u1a load,/c20/u1/i", "do u1a load,/c20/u1/i",
